@@ -779,7 +779,12 @@ impl CodegenContext {
                                     None => self.current_scope_nx,
                                 };
 
-                                for (child_id, child_nx) in self.symbols.children(import_nx) {
+                                for (child_id, child_nx) in self
+                                    .symbols
+                                    .children(import_nx)
+                                    .into_iter()
+                                    .sorted_by_key(|(_, child_nx)| *child_nx)
+                                {
                                     // Do not import special identifiers
                                     if child_id.is_special() {
                                         continue;
